@@ -170,6 +170,10 @@ def run(tier, seed):
             return None if t == "-" else np.array(r.vec()).reshape(-1, 1)
 
         mlb, mub = optvec(), optvec()
+        if r.tok() != "L1":
+            # two layers of the model disagree: the vectors of the executable bounds and the per-coordinate bounds of Model/BoxTree.lean (about which ebox_support is proved)
+            st.disagree(stim, "one box", "two boxes", "model layers disagree about the bounds in force (DExpr.ebox vs BoxTree.ebox)")
+            continue
         ok = common.close(mm, m, 1e-8, 1e-9) and ((not math.isfinite(m)) or common.vclose(mg, g, 1e-8, 1e-9))
         for a, b in ((mlb, lb), (mub, ub)):
             if (a is None) != (b is None) or (a is not None and not np.array_equal(a, np.asarray(b, dtype=float))):
